@@ -21,7 +21,7 @@ STACKS = [32768, 65536, 262144, 1048576]
 # before later ones): no cycle, hence no deadlock; the target exists when the reaper runs.
 # ------------------------------------------------------------------------------------------------
 
-def gen_program(rng, max_threads=10, reap_kinds=("join",), p_det=8, more_setters=False):
+def gen_program(rng, max_threads=10, reap_kinds=("join",), p_det=8, more_setters=False, null_share=0):
     parent, children = {0: None}, {0: []}
     n = 1
     budget = rng.rng(2, max_threads)
@@ -129,9 +129,12 @@ def gen_program(rng, max_threads=10, reap_kinds=("join",), p_det=8, more_setters
             if it[0] == "create":
                 ops.append(("create %d " % it[1] + " ".join(flags[it[1]])).strip())
             elif it[0] == "timedjoinw":
-                ops.append("timedjoinw %d %d" % (it[1], rng.choice([2500, 4500, 9000])))
-            else:
+                ops.append("timedjoinw %d %d%s" % (it[1], rng.choice([2500, 4500, 9000]), " null" if null_share and rng.chance(1, null_share) else ""))
+            elif it[0] == "detach":
                 ops.append("%s %d" % it)
+            else:
+                # the result pointer may be NULL: the reaper releases the record all the same
+                ops.append(("%s %d" % it) + (" null" if null_share and rng.chance(1, null_share) else ""))
         if mode == 3:
             ops.append("exit %d" % val)
         if t == 0 and detached:
@@ -150,7 +153,7 @@ def gen_global_order(ctx, n):
     r = ctx.rng
     cases = []
     for i in range(n):
-        threads, meta = gen_program(r, max_threads=r.choice([3, 5, 8]), reap_kinds=KINDS, more_setters=True)
+        threads, meta = gen_program(r, max_threads=r.choice([3, 5, 8]), reap_kinds=("join", "tryjoinw", "timedjoinw"), more_setters=True, null_share=3)
         route = r.choice(["gchildfirst", "envchildfirst"])
         val = r.choice([0, 0, 0, 1])
         cases.append(trace.case_text(r.choice([1, 2, 3, 4]), r.rng(1, 1 << 30), [], threads,
@@ -287,7 +290,7 @@ def oracle(r):
         if cl["op"] in dc.REAP_OPS and cl["op"] != "detach" and cl.get("ret") == 0:
             t = cl["target"]
             want = P.expected_ret.get(t)
-            if str(want) != str(cl.get("val")):
+            if not cl.get("null") and str(want) != str(cl.get("val")):
                 bad.append("%s of t%d (tag %d) delivered %s, the thread returned/exited with %s" % (cl["op"], t, P.tag[t], cl.get("val"), want))
             if t not in P.ready2 or P.ready2[t] > cl["ret_pos"]:
                 bad.append("%s of t%d returned before the target published FREE_READY2" % (cl["op"], t))
